@@ -94,7 +94,11 @@ func wrapSyntacticError(state interface {
 				ptr = []byte(Pointer(ptr).Parent()) // problem is with parent array
 			case d.Tokens.Last.isObject():
 				where = "after object value (expecting ',' or '}')"
-				ptr = []byte(Pointer(ptr).Parent()) // problem is with parent object
+				// If an object name is expected next, then AppendStackPointer
+				// already produced the pointer to the parent object.
+				if !d.Tokens.Last.NeedObjectName() {
+					ptr = []byte(Pointer(ptr).Parent()) // problem is with parent object
+				}
 			}
 		}
 		err = jsonwire.NewInvalidCharacterError(d.buf[pos:], where)
